@@ -26,7 +26,7 @@ fn nt_of(cfg: &Cfg) -> usize {
 }
 
 impl World {
-    fn model_advance(seq: &mut u64, over: &mut bool) {
+    pub fn model_advance(seq: &mut u64, over: &mut bool) {
         match seq.checked_add(1) {
             Some(n) => *seq = n,
             None => *over = true,
@@ -70,15 +70,20 @@ impl World {
         let armed = shimmed && sc.fail_armed;
         sc.fail_armed = false;
         let mut buf = pt.to_vec();
+        let hmask = std::cell::Cell::new(0u32);
+        let hpats = if p == P::C16 { pats_of(sc.refc.as_ref()) } else { vec![] };
         let res: Res<Vec<u8>> = if inplace {
-            real.seal_in_place(&mut buf, aad).map(|tag| {
+            hw(p == P::C16, &hpats, &hmask, || real.seal_in_place(&mut buf, aad)).map(|tag| {
                 let mut v = buf.clone();
                 v.extend_from_slice(&tag);
                 v
             })
         } else {
-            real.seal(pt, aad)
+            hw(p == P::C16, &hpats, &hmask, || real.seal(pt, aad))
         };
+        if let Some(n) = heap_viol(hmask.get()) {
+            return Err(viol(&format!("drop.{}-left-in-freed-heap-memory", n), format!("no heap block freed during seal still holds the {}", n), "found in a block at the moment it was freed".into()));
+        }
         cov.ops += 1;
         let log = if shimmed { shim::take_log() } else { vec![] };
         if shimmed {
@@ -474,6 +479,14 @@ impl World {
             self.predict(ident, pseq, pover, &whole, aad)
         };
 
+        // transient fault in the primitive: a valid message is refused this once (and nothing moves)
+        let inject = {
+            let rc = self.rcs[r].as_mut().unwrap();
+            let on = rc.fail_open_armed && rc.cfg.suite.shim && !single && has_real;
+            rc.fail_open_armed = false;
+            on
+        };
+        let pred = if inject && matches!(pred, Pred::Accept(_)) { Pred::Reject(E::OpenError) } else { pred };
         // model-only receiver: refhpke opens (C02: an independent implementation accepts real traffic)
         if !has_real {
             let rc = self.rcs[r].as_mut().unwrap();
@@ -508,12 +521,25 @@ impl World {
         let mut buf = body.clone();
         let ledger_before = if p == P::C16 && single { Some(ledger_all()) } else { None };
         let nonce_before = if p == P::C16 && !single { Some(hpke::verif::ledger(1)) } else { None };
+        let hmask = std::cell::Cell::new(0u32);
+        let hpats = if p == P::C16 { pats_of(rc.refc.as_ref()) } else { vec![] };
+        let hon = p == P::C16;
+        if inject {
+            shim::arm_decrypt_failure();
+            cov.hit("fault.aead_decrypt_failure_injected");
+        }
         let res: Res<Vec<u8>> = match api {
-            OpenApi::Alloc => rc.real.as_mut().unwrap().open(&whole, aad),
-            OpenApi::InPlace => rc.real.as_mut().unwrap().open_in_place(&mut buf, aad, &tag).map(|_| buf.clone()),
-            OpenApi::SingleShot => su.ss_open(&rc.mode_r, &rc.sk_r, &rc.enc, &rc.cfg.info, &whole, aad),
-            OpenApi::SingleShotInPlace => su.ss_open_in_place(&rc.mode_r, &rc.sk_r, &rc.enc, &rc.cfg.info, &mut buf, aad, &tag),
+            OpenApi::Alloc => hw(hon, &hpats, &hmask, || rc.real.as_mut().unwrap().open(&whole, aad)),
+            OpenApi::InPlace => hw(hon, &hpats, &hmask, || rc.real.as_mut().unwrap().open_in_place(&mut buf, aad, &tag)).map(|_| buf.clone()),
+            OpenApi::SingleShot => hw(hon, &hpats, &hmask, || su.ss_open(&rc.mode_r, &rc.sk_r, &rc.enc, &rc.cfg.info, &whole, aad)),
+            OpenApi::SingleShotInPlace => hw(hon, &hpats, &hmask, || su.ss_open_in_place(&rc.mode_r, &rc.sk_r, &rc.enc, &rc.cfg.info, &mut buf, aad, &tag)),
         };
+        if inject {
+            shim::disarm_decrypt_failure();
+        }
+        if let Some(n) = heap_viol(hmask.get()) {
+            return Err(viol(&format!("drop.{}-left-in-freed-heap-memory", n), format!("no heap block freed during open ({:?}) still holds the {}", api, n), "found in a block at the moment it was freed".into()));
+        }
         cov.ops += 1;
         tx_res(&mut self.tx, &res);
         if detached && matches!(res, Err(Fail::Hpke(_))) && body.len() >= 8 && buf.len() == body.len() && matches!(p, P::C06 | P::C05 | P::C14) {
@@ -985,6 +1011,7 @@ impl World {
         let p = self.p;
         let ev_idx = self.ev_idx;
         let viol = |inv: &str, e: String, o: String| Violation { property: p.name().into(), invariant: inv.into(), at_event: ev_idx, expected: e, observed: o };
+        let hmask = std::cell::Cell::new(0u32);
         let (res, refc, nh, cache, hist): (Res<Vec<u8>>, Option<&refhpke::RefCtx>, usize, &mut std::collections::HashMap<(Vec<u8>, usize), Result<Vec<u8>, Fail>>, &'static str) = match role {
             Role::S => {
                 let sc = match self.scs.get_mut(c).and_then(|x| x.as_mut()) {
@@ -996,7 +1023,7 @@ impl World {
                     None => return Ok(()),
                 };
                 let hist = if sc.m_over { "overflowed" } else if sc.m_seq == 0 { "fresh" } else { "used" };
-                (real.export(ectx, len), sc.refc.as_ref(), sc.cfg.suite.kdf.nh(), &mut sc.exports, hist)
+                (hw(p == P::C16, &pats_of(sc.refc.as_ref()), &hmask, || real.export(ectx, len)), sc.refc.as_ref(), sc.cfg.suite.kdf.nh(), &mut sc.exports, hist)
             }
             Role::R => {
                 let rc = match self.rcs.get_mut(c).and_then(|x| x.as_mut()) {
@@ -1008,11 +1035,14 @@ impl World {
                     None => return Ok(()),
                 };
                 let hist = if rc.m_over { "overflowed" } else if rc.m_seq == 0 { "fresh" } else { "used" };
-                (real.export(ectx, len), rc.refc.as_ref(), rc.cfg.suite.kdf.nh(), &mut rc.exports, hist)
+                (hw(p == P::C16, &pats_of(rc.refc.as_ref()), &hmask, || real.export(ectx, len)), rc.refc.as_ref(), rc.cfg.suite.kdf.nh(), &mut rc.exports, hist)
             }
         };
         cov.ops += 1;
         tx_res(&mut self.tx, &res);
+        if let Some(n) = heap_viol(hmask.get()) {
+            return Err(viol(&format!("drop.{}-left-in-freed-heap-memory", n), format!("no heap block freed during export still holds the {}", n), "found in a block at the moment it was freed".into()));
+        }
         let lclass = if len == 0 {
             "0"
         } else if len == 255 * nh {
@@ -1195,7 +1225,11 @@ impl World {
         if refc.is_none() {
             return Ok(());
         }
-        let names = ["base_nonce", "exporter_secret", "exporter_secret-as-hmac-ipad-key", "exporter_secret-as-hmac-opad-key"];
+        let names = PAT_NAMES;
+        cov.hit_n("teardown.heap_blocks_inspected", scan.heap_blocks);
+        if let Some(n) = heap_viol(scan.heap_hits) {
+            return Err(self.viol(&format!("drop.{}-left-in-freed-heap-memory", n), format!("no heap block freed by dropping the {:?} context still holds the {}", role, n), "found in a block at the moment it was freed".into()));
+        }
         for i in 0..4 {
             if !scan.observed(i) {
                 cov.hit(&format!("teardown.unobservable.{}", names[i]));
@@ -1244,6 +1278,27 @@ impl World {
         }
         Ok(())
     }
+}
+
+/// Runs `f` with the heap watch armed for `pats` (C16 only): every heap block freed inside is
+/// inspected; the bit mask of patterns found is OR-ed into `mask`.
+pub fn hw<T>(on: bool, pats: &[Vec<u8>], mask: &std::cell::Cell<u32>, f: impl FnOnce() -> T) -> T {
+    if !on {
+        return f();
+    }
+    crate::heapscan::arm(pats);
+    let r = f();
+    let (m, _) = crate::heapscan::disarm();
+    mask.set(mask.get() | m);
+    r
+}
+pub const PAT_NAMES: [&str; 4] = ["base_nonce", "exporter_secret", "exporter_secret-as-hmac-ipad-key", "exporter_secret-as-hmac-opad-key"];
+pub fn heap_viol(mask: u32) -> Option<&'static str> {
+    (0..4).find(|i| mask & (1 << i) != 0).map(|i| PAT_NAMES[i])
+}
+
+pub fn pats_of_pub(refc: Option<&refhpke::RefCtx>) -> Vec<Vec<u8>> {
+    pats_of(refc)
 }
 
 fn pats_of(refc: Option<&refhpke::RefCtx>) -> Vec<Vec<u8>> {
